@@ -435,6 +435,14 @@ func (lb *LoadBalancer) AddBackend(backendCfg config.BackendConfig) error {
 		return fmt.Errorf("backend %s: address %q must be an http:// or https:// URL with a host", backendCfg.Name, backendCfg.Address)
 	}
 
+	// Health, passive failure counts and metrics are kept per backend name, so a name identifies
+	// one backend: registering a second one under it would let the two overwrite each other's state
+	for _, existing := range lb.strategy.GetBackends() {
+		if existing.Name == backendCfg.Name {
+			return fmt.Errorf("backend %s is already registered", backendCfg.Name)
+		}
+	}
+
 	// Create a reverse proxy for this backend with optimized transport
 	proxy := httputil.NewSingleHostReverseProxy(backendURL)
 
